@@ -40,9 +40,11 @@ SmallOps == { [name |-> "oob", kind |-> "center", box |-> 0],
               [name |-> "points", pts |-> { Pt(1, <<24, 16, 24>>), Pt(2, <<100, 100, 100>>) }, r |-> 9],
               [name |-> "points", pts |-> { Pt(1, <<0, 16, 24>>), Pt(1, <<24, 0, 24>>), Pt(1, <<24, 16, 0>>),
                                             Pt(2, <<16, 16, 16>>) }, r |-> 20],
-              [name |-> "mask", tl |-> {1, 2}, masks |-> (1 :> MaskA) @@ (2 :> MaskB)],
-              [name |-> "mask", tl |-> {1}, masks |-> (1 :> MaskA)],
-              [name |-> "mask", tl |-> {1, 2, 3}, masks |-> (1 :> MaskA) @@ (2 :> MaskB) @@ (3 :> MaskC)] }
+              [name |-> "mask", form |-> "array", tl |-> {1, 2}, masks |-> (1 :> MaskA) @@ (2 :> MaskB)],
+              [name |-> "mask", form |-> "mrc", tl |-> {1, 2}, masks |-> (1 :> MaskA) @@ (2 :> MaskB)],
+              [name |-> "mask", form |-> "em", tl |-> {1}, masks |-> (1 :> MaskA)],
+              [name |-> "mask", form |-> "rec", tl |-> {1, 2, 3}, masks |-> (1 :> MaskA) @@ (2 :> MaskB) @@ (3 :> MaskC)],
+              [name |-> "mask", form |-> "mixed", tl |-> {1, 2, 3}, masks |-> (1 :> MaskA) @@ (2 :> MaskB) @@ (3 :> MaskC)] }
 
 \* two calls on the same list with the same argument objects
 SmallChains == { <<[name |-> "oob", kind |-> "whole", box |-> 4], [name |-> "oob", kind |-> "center", box |-> 0]>>,
@@ -58,7 +60,7 @@ SmallCases == { [id |-> 0, ps |-> l, dims |-> SmallDims3, ops |-> <<o>>] : l \in
 \* JSON form of a case, for the driver (the interpretation needs the inputs, too)
 OpJ(o) == CASE o.name = "points" -> [name |-> "points", r |-> o.r,
                                      pts |-> SetToSeq({ <<q.t, q.pos[1], q.pos[2], q.pos[3]>> : q \in o.pts })]
-            [] o.name = "mask" -> [name |-> "mask", tl |-> SetToSeq(o.tl),
+            [] o.name = "mask" -> [name |-> "mask", form |-> o.form, tl |-> SetToSeq(o.tl),
                                    masks |-> SetToSeq({ <<t, o.masks[t].shape, SetToSeq(o.masks[t].zero)>> : t \in DOMAIN o.masks })]
             [] OTHER -> o
 CaseJ == [id |-> cs.id, ps |-> PJ(cs.ps),
@@ -75,7 +77,7 @@ OpOf(o) == CASE o.name = "points" ->
                  [name |-> "points", r |-> o.r,
                   pts |-> { Pt(o.pts[k][1], <<o.pts[k][2], o.pts[k][3], o.pts[k][4]>>) : k \in DOMAIN o.pts }]
              [] o.name = "mask" ->
-                 [name |-> "mask", tl |-> { o.tl[k] : k \in DOMAIN o.tl },
+                 [name |-> "mask", form |-> o.form, tl |-> { o.tl[k] : k \in DOMAIN o.tl },
                   masks |-> [t \in { o.masks[k][1] : k \in DOMAIN o.masks } |->
                                 LET k == CHOOSE k \in DOMAIN o.masks : o.masks[k][1] = t
                                 IN  [shape |-> o.masks[k][2],
